@@ -6,6 +6,7 @@ import JRV.Model.Payload
 import JRV.Model.Headers
 import JRV.Model.Wire
 import JRV.Model.ConfigHeap
+import JRV.Model.Transport
 import JRV.Generated
 import JRV.Driver
 import JRV.Properties.C06
@@ -13,3 +14,4 @@ import JRV.Properties.C13
 import JRV.Properties.C14
 import JRV.Properties.C17
 import JRV.Properties.C18
+import JRV.Properties.C19
